@@ -7,13 +7,25 @@ CONSTANT K
 VARIABLE hist
 Entry(op, i, v, c, vd, lk, vl) == [op |-> op, item |-> i, v |-> v, c |-> c, vd |-> vd, locked |-> lk, val |-> vl]
 GInit == Init /\ hist = <<Entry("init", "-", 0, {}, "ok", locked, val)>>
-GNext == /\ Len(hist) <= K
-         /\ Next
-         /\ hist' = Append(hist, Entry(ret'[1], ret'[2], ret'[3], ret'[4], ret'[5], locked', val'))
+GStep(N) == /\ Len(hist) <= K
+            /\ N
+            /\ hist' = Append(hist, Entry(ret'[1], ret'[2], ret'[3], ret'[4], ret'[5], locked', val'))
+GNext == GStep(Next)
 GSpec == GInit /\ [][GNext]_<<vars, hist>>
 \* TLC's simulator evaluates the invariant on EVERY successor of the state it is in; exactly one successor per walk
 \* (a fixed last step: nobody tries to set the role) is printed, so that one line = one random walk of K - 1 steps
 Last == hist[K + 1]
 Emit == Len(hist) = K + 1 /\ Last.op = "update" /\ Last.item = "role" /\ Last.v = 1 /\ Last.c = {}
           => PrintT(<<"B", ToJson(hist)>>)
+\* Systematic family (quick and thorough): EVERY operation x item x value x caller as a one-step behaviour from the
+\* all-unlocked and from the all-locked state (the product lock state x operation x caller class is never sampled)
+BInit == /\ GInit
+         /\ locked \in {[i \in Items |-> FALSE], [i \in Items |-> i # "role"]}
+         /\ val = [i \in Items |-> 1]
+BSpec == BInit /\ [][GNext]_<<vars, hist>>
+\* ... and every operation x caller right after a transaction locked the item it targets or any other item
+LockFirst == IF Len(hist) = 1 THEN GStep(\E i \in Lockable : Lock(i, {1})) ELSE GNext
+B2Spec == /\ GInit /\ locked = [i \in Items |-> FALSE] /\ val = [i \in Items |-> 1]
+          /\ [][LockFirst]_<<vars, hist>>
+EmitAll == Len(hist) = K + 1 => PrintT(<<"B", ToJson(hist)>>)
 =============================================================================
